@@ -24,9 +24,12 @@ CHECKS = [
              'reduced requests / named results, create_function, create_objective_function, '
              'BIOGEME.calculate_likelihood_and_derivatives scaled and unscaled, check_derivatives) and compared entry by '
              'entry with forward-mode second-order jets of the reference semantics; symmetry, BHHH = sum of outer products, '
-             'aggregate = sum of per-observation outputs, name <-> index mapping are asserted. Exploration over programs x inputs.',
+             'aggregate = sum of per-observation outputs, name <-> index mapping are asserted. Derivatives THROUGH MonteCarlo (random '
+             'coefficients with deterministic user-defined draws) and Integrate (normal mixtures) are compared with the mean / the '
+             'quadrature of the reference jets. Exploration over programs x inputs.',
         note='Trusts the reference jets (cross-checked by finite differences of the reference value, which also filters '
-             'kinks); tolerance 2e-6 relative; four engine-level defects are listed known findings and bucketed by structure.',
+             'kinks); tolerance 2e-6 relative (1e-5 through Integrate); five engine-level defects are listed known findings and bucketed '
+             'by structure.',
         technique='property-based testing (Hypothesis): generated differentiable DAGs vs reference automatic differentiation (jets)',
     ),
     dict(
